@@ -26,23 +26,23 @@ CHECKS = {
          "Output and chaining state after every piece must equal the block-at-a-time run. No model.", "6/C07"),
  "C08": (True, "exploration", SIM + ": twin runs of the real code, seeded chunking of a byte stream vs one call",
          "Byte-stream wrappers and buffered CFB under arbitrary piece boundaries (empty pieces, straddling pieces) vs one call; one-shot CFB/CFB-8 prefix preservation.", "6/C08"),
- "C09": (False, "fault_enumeration", SIM + ": crash/restart injection - every cut point of a sampled history is a crash after which only the exported IV state survives",
+ "C09": (True, "fault_enumeration", SIM + ": crash/restart injection - every cut point of a sampled history is a crash after which only the exported IV state survives",
          "For each sampled scenario all cut points are enumerated: export, drop, rebuild from the exported value, continue under a fresh schedule; output must equal the uninterrupted run and the exported value must equal the observable public chaining value.", "6/C09"),
- "C10": (False, "exploration", SIM + ": seeded histories of seek/apply/position operations with position arithmetic, twin routes to the same position and seam-trace invariants",
+ "C10": (True, "exploration", SIM + ": seeded histories of seek/apply/position operations with position arithmetic, twin routes to the same position and seam-trace invariants",
          "Reported position must equal the tracked integer position or be an error when it does not fit; bytes after a seek equal the keystream from offset 0 (sequentially or via an independent route).", "6/C10"),
- "C11": (False, "fault_enumeration", SIM + ": resource-exhaustion fault - instances are placed a few blocks before the keystream limit and driven across it; error contract plus seam-trace uniqueness invariant",
+ "C11": (True, "fault_enumeration", SIM + ": resource-exhaustion fault - instances are placed a few blocks before the keystream limit and driven across it; error contract plus seam-trace uniqueness invariant",
          "Requests succeed iff they fit; failures leave buffers, position and following bytes untouched; remaining_blocks is exact; no cipher input value ever serves two positions.", "6/C11"),
  "C12": (True, "exploration", SIM + ": twin runs of identical histories, one in place and one buffer-to-buffer into a dirty output buffer",
          "Partial fit: the buffer form is one more per-step schedule choice; outputs and exported state must agree after every call.", "6/C12"),
- "C13": (False, "fault_enumeration", SIM + ": injected contract-violating calls inside valid histories (error and untouched buffers expected) and a no-panic sweep with every run under catch_unwind",
+ "C13": (True, "fault_enumeration", SIM + ": injected contract-violating calls inside valid histories (error and untouched buffers expected) and a no-panic sweep with every run under catch_unwind",
          "Each rejected-call kind is enumerated over every type that exposes it; valid neighbours must succeed.", "6/C13"),
  "C14": (True, "exploration", SIM + ": replica agreement - several front ends process one logical stream under independent schedules and must never diverge",
          "Partial fit: pairwise equality of buffered/block/one-shot CFB, OFB's four faces, CTR/BelT core vs wrapper, cts on whole blocks vs CBC/raw E, key-bytes vs keyed-cipher construction.", "6/C14"),
- "C15": (False, "fault_enumeration", SIM + ": corruption faults injected on the simulated channel between encryptor and decryptor; twin decryptions clean vs corrupted",
+ "C15": (True, "fault_enumeration", SIM + ": corruption faults injected on the simulated channel between encryptor and decryptor; twin decryptions clean vs corrupted",
          "All corruption positions are enumerated for each sampled message; the difference must have exactly the support that is a theorem for a bijective cipher; keystream independence checked on the seam trace.", "6/C15"),
- "C16": (False, "exploration", SIM + ": seeded interleaving of operations on an original and its clone (or two unrelated instances) vs sequential replays",
+ "C16": (True, "exploration", SIM + ": seeded interleaving of operations on an original and its clone (or two unrelated instances) vs sequential replays",
          "Outputs, positions and exported states of the interleaved actors must equal those of two fresh instances replaying h1;h2 and h1;h3.", "6/C16"),
- "C17": (False, "fault_enumeration", SIM + ": drop injected at every prefix of a sampled history with a harness-side scan of the object's storage; Debug text compared across instances; positive control build without zeroize",
+ "C17": (True, "fault_enumeration", SIM + ": drop injected at every prefix of a sampled history with a harness-side scan of the object's storage; Debug text compared across instances; positive control build without zeroize",
          "Good fit for zeroize, thin for Debug.", "6/C17"),
 }
 NA = {
